@@ -103,6 +103,10 @@ def define(f):
     pass
 
 
+def is_fresh(x):
+    return True
+
+
 def content(f):
     """Bytes of a file-like object / list (native twin of the ghost view)."""
     if hasattr(f, "getvalue"):
